@@ -13,6 +13,13 @@ import (
 
 func nalBody(t *core.Tape, n int) []byte {
 	b := t.Bytes(n)
+	if n > 0 && t.Chance(1, 8) {
+		// start-code look-alikes: bodies over the alphabet {00, 01, 02, 03, FF} (the invariant "no two
+		// consecutive zeros, no trailing zero" is restored below), e.g. 00 01 00 01, 01 00 01, 00 02
+		for i := range b {
+			b[i] = []byte{0x00, 0x01, 0x01, 0x02, 0x03, 0xFF, 0x00, 0x01}[b[i]&7]
+		}
+	}
 	for i := range b {
 		if b[i] == 0 && (i == 0 || b[i-1] == 0 || i == len(b)-1) {
 			b[i] = 0x80 | byte(i)
@@ -494,6 +501,9 @@ func foreignH265(t *core.Tape, units [][]byte, donl bool) ([][]byte, []h265Expec
 			e := h265Expect{kind: 50}
 			e.a = false
 			e.cType = h.typ
+			if t.Chance(1, 4) {
+				e.cType = byte([]int{49, 48, 50, 63}[t.Intn(4)]) // a PACI payload may itself be an FU / AP-like structure
+			}
 			e.f0 = t.Bool()
 			e.phsSize = byte(t.Intn(32))
 			if e.f0 && e.phsSize < 3 {
